@@ -1,5 +1,6 @@
 """Hostile Python values for C10: in range and out of range, right type and
 wrong type."""
+import array as _array
 import datetime
 import decimal
 import time
@@ -83,7 +84,9 @@ BYTESLIKE = [b'', b'abc', b'\xff\xfe', bytearray(b''), bytearray(b'abc'),
              memoryview(b'GOODBADFE\x01bSxy').cast('H'),
              memoryview(b'abcdefgh').cast('B', (2, 4)),
              memoryview(b'abcdefgh').cast('I'),
-             memoryview(b'abcdefgh')[::2], memoryview(b'abcdefgh')[::-1]]
+             memoryview(b'abcdefgh')[::2], memoryview(b'abcdefgh')[::-1],
+             _array.array('H', [1, 2, 3]), _array.array('d', [1.5]),
+             _array.array('B', b'abc')]
 
 
 class _Obj:
